@@ -155,24 +155,68 @@ def str_getitem(it, s, k):
     return mk_str(z3.SubString(e, idx, 1))
 
 
+_S = z3.StringSort()
+_ufuns = {}
+
+
+def ufun(name, *sorts):
+    """Uninterpreted function standing for a str operation whose meaning is
+    not needed (only that code and contract apply the same operation)."""
+    key = (name,) + tuple(str(x) for x in sorts)
+    f = _ufuns.get(key)
+    if f is None:
+        f = z3.Function(name, *sorts)
+        _ufuns[key] = f
+    return f
+
+
+def int_ok(e):
+    return ufun('py_int_ok', _S, z3.BoolSort())(e)
+
+
+def int_val(e):
+    return ufun('py_int_val', _S, z3.IntSort())(e)
+
+
+def float_ok(e):
+    return ufun('py_float_ok', _S, z3.BoolSort())(e)
+
+
+def float_val(e):
+    return ufun('py_float_val', _S, z3.RealSort())(e)
+
+
 def str_to_int(it, v):
-    hook = getattr(it, 'str_to_int_hook', None)
-    if hook is not None:
-        return hook(it, v)
-    raise Unsupported('int() of symbolic string')
+    """int(s): defined iff py_int_ok(s) (else ValueError), value py_int_val(s)
+    (uninterpreted; related to str() by the axioms added in str_of)."""
+    if isinstance(v, OpaqueStr):
+        raise Unsupported('int() of untracked string')
+    e = zstr(v)
+    if not it.truth(mk_bool(int_ok(e))):
+        it.throw(ValueError, 'invalid literal for int() with base 10')
+    return mk_int(int_val(e))
 
 
 def str_to_float(it, v):
-    hook = getattr(it, 'str_to_float_hook', None)
-    if hook is not None:
-        return hook(it, v)
-    raise Unsupported('float() of symbolic string')
+    if isinstance(v, OpaqueStr):
+        raise Unsupported('float() of untracked string')
+    e = zstr(v)
+    if not it.truth(mk_bool(float_ok(e))):
+        it.throw(ValueError, 'could not convert string to float')
+    return mk_real(float_val(e))
 
 
 def str_of(it, v):
-    hook = getattr(it, 'str_of_hook', None)
-    if hook is not None:
-        return hook(it, v)
+    """str(n) for a symbolic int: the canonical decimal rendering DEC(n), with
+    the axioms int(DEC(n)) == n and DEC injective (instantiated here)."""
+    if isinstance(v, (SInt, SBool)) and not isinstance(v, SBool):
+        t = ufun('py_str_int', z3.IntSort(), _S)(v.e)
+        it.path.fact(z3.And(int_ok(t), int_val(t) == v.e,
+                            ufun('py_is_canonical_int', _S,
+                                 z3.BoolSort())(t)))
+        return SStr(t)
+    if isinstance(v, SReal):
+        return SStr(ufun('py_str_float', z3.RealSort(), _S)(v.e))
     return OpaqueStr('str', (v,))
 
 
@@ -196,7 +240,23 @@ def str_method(it, recv, name, args, kw):
                 return ''
             return mk_str(z3.Concat(*parts) if len(parts) > 1 else parts[0])
         return OpaqueStr('join', tuple(items))
+    if isinstance(recv, str):
+        recv_e = z3.StringVal(recv)
     e = zstr(recv)
+    if name in ('strip', 'lstrip', 'rstrip', 'lower', 'upper', 'title',
+                'casefold', 'capitalize', 'swapcase') and all(
+                    isinstance(a, str) for a in args) and not kw:
+        fname = 'py_%s' % name + ''.join('_%s' % a.encode().hex()
+                                         for a in args)
+        return mk_str(ufun(fname, _S, _S)(e))
+    if name == 'replace' and len(args) == 2 and all(
+            isinstance(a, str) for a in args):
+        fname = 'py_replace_%s_%s' % (args[0].encode().hex(),
+                                      args[1].encode().hex())
+        return mk_str(ufun(fname, _S, _S)(e))
+    if name in ('isdigit', 'isalpha', 'isalnum', 'isspace', 'isprintable',
+                'isupper', 'islower', 'isascii') and not args:
+        return mk_bool(ufun('py_' + name, _S, z3.BoolSort())(e))
     if name == 'startswith':
         return mk_bool(z3.PrefixOf(zstr(args[0]), e))
     if name == 'endswith':
